@@ -21,9 +21,15 @@ use taffy::{AvailableSpace, Cache, LayoutOutput, RunMode};
 
 const NAN: u32 = 0x7fc0_0000;
 /// 0, 0.5, 0.5+2^-24 (roughly equal to 0.5), 0.5+2^-23 (exactly EPSILON above 0.5), 1, 1+2^-23 (exactly EPSILON above 1:
-/// not roughly equal), 100, -0.0, 2^-24 (roughly equal to 0, not == 0), +inf, NaN
-const VALS: [u32; 11] =
-    [0, 0x3f00_0000, 0x3f00_0001, 0x3f00_0002, 0x3f80_0000, 0x3f80_0001, 0x42c8_0000, 0x8000_0000, 0x3380_0000, 0x7f80_0000, NAN];
+/// not roughly equal), 100, -0.0, 2^-24 (roughly equal to 0, not == 0), +inf, NaN; neighbouring floats of larger magnitude
+/// (100 / 100+2^-17, 1000 / 1000+2^-14, 1e6 / 1e6+2^-4: one ulp apart is far more than EPSILON there, so never roughly equal)
+const VALS: [u32; 16] = [
+    0, 0x3f00_0000, 0x3f00_0001, 0x3f00_0002, 0x3f80_0000, 0x3f80_0001, 0x42c8_0000, 0x8000_0000, 0x3380_0000, 0x7f80_0000, NAN,
+    0x42c8_0001, 0x447a_0000, 0x447a_0001, 0x4974_2400, 0x4974_2401,
+];
+/// pairs one ulp apart
+const NEIGHBOURS: [(u32, u32); 5] =
+    [(0x3f80_0000, 0x3f80_0001), (0x42c8_0000, 0x42c8_0001), (0x447a_0000, 0x447a_0001), (0x4974_2400, 0x4974_2401), (0x3f00_0000, 0x3f00_0001)];
 const BAD_PAYLOAD: u64 = 0xffff_ffff;
 
 #[derive(Clone, Copy, PartialEq, Eq, Debug)]
@@ -233,7 +239,11 @@ struct Gen {
 impl Gen {
     fn new(rng: &mut Rng) -> Gen {
         // most sequences draw from a small pool so that keys collide; the rest from the whole domain
-        let pool = match rng.below(4) {
+        let pool = match rng.below(5) {
+            4 => {
+                let (a, b) = *rng.pick(&NEIGHBOURS);
+                vec![a, b]
+            }
             0 => VALS.to_vec(),
             1 => vec![*rng.pick(&VALS), *rng.pick(&VALS)],
             2 => vec![0x3f00_0000, 0x3f00_0001, 0x3f00_0002, *rng.pick(&VALS)],
@@ -324,6 +334,14 @@ fn corpus() -> Vec<Vec<Op>> {
         vec![Op::Store(wmin, 1, one, one, 1), Op::Store(wmax, 1, 0x42c8_0000, one, 2), Op::Get(wmin, 1), Op::Get(wmax, 1)],
         // exactly EPSILON apart is not roughly equal; 1 vs 1 is
         vec![Op::Store(eps, 0, one, one, 1), Op::Get(k(None, None, (2, one), (2, one)), 0), Op::Get(eps, 0), Op::Get(k(None, None, (2, 0x3f80_0001), (2, 0x3f80_0001)), 0)],
+        // one ulp apart at magnitude 1000 (2^-14) and 100 (2^-17) is far more than EPSILON: not roughly equal, either way round
+        vec![
+            Op::Store(k(None, None, (2, 0x447a_0000), (1, 0)), 0, one, one, 1),
+            Op::Get(k(None, None, (2, 0x447a_0001), (1, 0)), 0),
+            Op::Store(k(None, None, (0, 0), (2, 0x42c8_0001)), 1, one, one, 2),
+            Op::Get(k(None, None, (0, 0), (2, 0x42c8_0000)), 1),
+            Op::Get(k(None, None, (0, 0), (2, 0x42c8_0001)), 1),
+        ],
         // NaN known dimension / infinite available space: the key does not even match itself
         vec![Op::Store(nan, 0, one, one, 1), Op::Get(nan, 0), Op::Store(nan, 1, one, one, 2), Op::Get(nan, 1), Op::Clear, Op::Clear],
         // hidden layouts are never cached
